@@ -42,6 +42,9 @@ def plan(tier, seed):
     for sh in range(2 if tier == "quick" else 6):
         jobs.append({"func": "generated", "nvx": "1", "nvxbuild": True, "name": "gen_native/%d" % sh, "args": {"seed": seed * 1000 + sh, "n": n}})
         jobs.append({"func": "generated", "nvx": "0", "name": "gen_pure/%d" % sh, "args": {"seed": seed * 1000 + 50 + sh, "n": max(80, n // 5)}})
+    # single chunks far beyond 64 KiB, the offending octet at in-chunk offsets around 2^16 and 2^17 (index arithmetic of the native wrapper)
+    jobs.append({"func": "huge_chunks", "nvx": "1", "nvxbuild": True, "name": "huge_native", "args": {"deep": tier != "quick"}})
+    jobs.append({"func": "huge_chunks", "nvx": "0", "name": "huge_pure", "args": {"deep": False}})
     return jobs
 
 
@@ -120,7 +123,11 @@ def iter_chunks(impl, v, chunks, case, fresh=True):
     if not fresh:
         v.reset()
     total = b"".join(chunks)
-    bad_all, flags = utf8_profile(total)
+    if _PROFILE[0] == total:
+        bad_all, flags = _PROFILE[1]
+    else:
+        bad_all, flags = utf8_profile(total)
+        _PROFILE[0], _PROFILE[1] = total, (bad_all, flags)
     fed = 0
     for ch in chunks:
         before = fed
@@ -146,6 +153,9 @@ def iter_chunks(impl, v, chunks, case, fresh=True):
                 raise Violation("C09|%s|index-on-reject" % impl.name, "current=%r total=%r, reference offending byte at %d (chunk start %d): %r" % (cur, tot, bad, before, case), case)
             return
         yield fed
+
+
+_PROFILE = [None, None]      # the reference profile of the last stream judged (the same stream is judged under several chunkings / implementations)
 
 
 def selftest_reference():
@@ -223,6 +233,38 @@ def short_strings(col, maxlen, shard, nshards, impl_stride=1):
                 col.case(n >= 1, enum=True, cls="short-len%d/%s" % (n, impl.name), sample=case if n else None)
     if shard == 0:
         col.exhaustive.append("all byte strings of length <=%d, one-shot and one split, per implementation" % maxlen)
+
+
+def huge_chunks(col, deep):
+    """enumerated: a valid text of 140 000 (deep: 300 000) octets, nothing or an ill-formed sequence inserted at an offset around 2^16 / 2^17 (/ 2^18),
+    fed as one chunk and cut at places before and after it; every result element is compared with the reference as everywhere else"""
+    selftest_reference()
+    impls = implementations()
+    unit = "plain ascii, é€😀 and more; ".encode("utf-8")
+    size = 300000 if deep else 140000
+    base = (unit * (size // len(unit) + 1))[:size]
+    while base and (base[-1] & 0xC0) == 0x80 or (base and base[-1] >= 0xC0):
+        base = base[:-1]
+    offsets = [None] + [p + d for p in ((1 << 16, 1 << 17) + ((1 << 18,) if deep else ())) for d in (-1, 0, 1)]
+    n = 0
+    for off in offsets:
+        for inj in ((None,) if off is None else (b"\xf4\x90\x80\x80", b"\xc2\x41", b"\xff")):
+            if off is None:
+                data, pos = base, None
+            else:
+                pos = off
+                while (base[pos] & 0xC0) == 0x80:       # insert at a code point boundary at or just after the wanted offset
+                    pos += 1
+                data = base[:pos] + inj + base[pos:]
+            for cuts in ([], [70001], [65536], [3, 65539], [len(data) - 1]):
+                case = {"check": "huge", "size": size, "inj": inj, "pos": pos, "cuts": cuts}
+                chunks = [data[a:b] for a, b in zip([0] + cuts, cuts + [len(data)])]
+                for impl in impls:
+                    check_chunks(impl, impl.new(), chunks, dict(case, impl=impl.name))
+                    n += 1
+                    col.case(inj is not None, enum=True, cls="huge-chunk/%s/%s" % (impl.name, "ill-formed" if inj else "well-formed"),
+                             sample=case if n % 7 == 0 else None)
+    col.exhaustive.append("chunks beyond 64 KiB: %d offsets around 2^16/2^17%s x 3 ill-formed sequences x 5 chunkings, per implementation" % (len(offsets) - 1, "/2^18" if deep else ""))
 
 
 # ---------------------------------------------------------------- generated long inputs
@@ -328,6 +370,8 @@ def replay(col, case):
     impls = implementations()
     if c["check"] == "gen":
         check_gen(c, impls)
+    elif c["check"] == "huge":
+        huge_chunks(col, c.get("size", 0) > 200000)
     else:
         for impl in impls:
             if c.get("impl") in (None, impl.name):
